@@ -610,6 +610,9 @@ class HistRun:
                     # (the one read that matters there is the old tree named by the token)
                     op["fault_sweep"] = 60
                     self.io_armed += 1
+                elif self.cfg.get("io_faults") and self.prop == "C17" and op["op"] == "report" and op.get("report") == "multiget" and self.io_armed < 4 and self.frng.random() < 0.5:
+                    op["fault_sweep"] = 80
+                    self.io_armed += 1
                 elif self.cfg.get("io_faults") and op["op"] in ("get", "head", "propfind", "report") and self.io_armed < 6 and self.frng.random() < 0.12:
                     # the store cache is emptied just before the request (every step ends with an audit
                     # that warms it again), so the request opens its stores itself - under a read error
@@ -1447,6 +1450,25 @@ class HistRun:
             texts = [self.href_text(h) for h in op["hrefs"]]
             r = self.world.req("REPORT", coll, [dav.XML_CT, ("Depth", "1")], dav.multiget_body(which, texts), **self.delivery(op))
             ctx.update(resp=r, href_texts=texts, which=which)
+            if op.get("fault_sweep"):
+                # the same multiget again with a read error at its 1st, 2nd, ... file-system event
+                import errno as _errno
+
+                from . import hist_oracles
+
+                for k in range(1, int(op["fault_sweep"]) + 1):
+                    FS.err_fired = []
+                    ev0 = FS.ev_seq
+                    FS.read_err_at = {ev0 + k: _errno.EIO}
+                    rk = self.world.req("REPORT", coll, [dav.XML_CT, ("Depth", "1")], dav.multiget_body(which, texts))
+                    FS.read_err_at = {}
+                    if not FS.err_fired:
+                        if FS.ev_seq - ev0 < k:
+                            break
+                        continue
+                    FS.err_fired = []
+                    self.count("fault.read_error_eio")
+                    hist_oracles.c17(self, op, dict(ctx, resp=rk, status=rk.status if rk is not None else None, read_fault=True, io_fault=True), self.obs)
         elif kind == "query":
             r = self.world.req("REPORT", coll, [dav.XML_CT, ("Depth", "1")], dav.calquery_body(dav.cal_filter(op["filter"])), **self.delivery(op))
             ctx.update(resp=r)
